@@ -364,10 +364,6 @@ func ruleBatchPartition(c *eng.Ctx) {
 			}
 		}
 	})
-	c.Check(iPhi != nil, R, "rag.(*BatchExporter).Export#step", fn.Pos(), "loop advances by the batch size", "the batch loop does not advance by exactly batchSize: chunks at batch boundaries are dropped or repeated")
-	if iPhi == nil {
-		return
-	}
 	// window slice chunks[lo:hi]
 	var win *ssa.Slice
 	eng.Instrs(fn, false, func(in ssa.Instruction) {
@@ -375,6 +371,68 @@ func ruleBatchPartition(c *eng.Ctx) {
 			win = sl
 		}
 	})
+	if iPhi == nil && win != nil && win.Low != nil && win.High != nil {
+		// the loop position may live in a cursor object advanced by its methods: evaluate the window
+		// bounds and every update of the position as terms over (position, batch size, len(chunks))
+		sc := &symCtx{leaf: func(v ssa.Value) (*eng.Poly, bool) {
+			if fr, ok := eng.LoadOfField(v); ok && fr.Field == "batchSize" {
+				return eng.PSym("size"), true
+			}
+			return nil, false
+		}}
+		root := &symEnv{fn: fn}
+		lo := sc.alts(win.Low, root, 0)
+		if len(lo) == 1 && strings.HasPrefix(lo[0].String(), "state.") && len(sc.states[lo[0].String()]) > 0 {
+			i := lo[0]
+			lenSym := eng.PSym("len(" + fn.Params[1].Name() + ")")
+			okStep, nStep := true, 0
+			for _, st := range sc.states[i.String()] {
+				if st.env == root && !eng.InLoop(st.st.Block()) {
+					// initial position: must be the start of the slice
+					if a := sc.alts(st.st.Val, st.env, 0); len(a) != 1 || !a[0].Equal(eng.PConst(0)) {
+						okStep = false
+					}
+					continue
+				}
+				nStep++
+				if a := sc.alts(st.st.Val, st.env, 0); len(a) != 1 || !a[0].Equal(i.Add(eng.PSym("size"))) {
+					okStep = false
+				}
+			}
+			c.Check(okStep && nStep > 0, R, "rag.(*BatchExporter).Export#step", fn.Pos(), "loop advances by the batch size", "the batch loop does not advance by exactly batchSize: chunks at batch boundaries are dropped or repeated")
+			want := []*eng.Poly{i.Add(eng.PSym("size")), lenSym}
+			hi := sc.alts(win.High, root, 0)
+			c.Check(polySetEqual(hi, want), R, "rag.(*BatchExporter).Export#window", win.Pos(), "window is chunks[i:min(i+size,len)]", "the batch window is not chunks[i : min(i+batchSize, len(chunks))]: consecutive windows overlap or leave gaps")
+			okIdx := 0
+			eng.Instrs(fn, false, func(in ssa.Instruction) {
+				st, ok := in.(*ssa.Store)
+				if !ok {
+					return
+				}
+				fr, ok := eng.AsField(st.Addr)
+				if !ok || !strings.HasSuffix(fr.Struct, "rag.ExportBatch") {
+					return
+				}
+				switch fr.Field {
+				case "StartIndex":
+					if a := sc.alts(st.Val, root, 0); len(a) == 1 && a[0].Equal(i) {
+						okIdx++
+					}
+				case "EndIndex":
+					if polySetEqual(sc.alts(st.Val, root, 0), want) {
+						okIdx++
+					}
+				}
+			})
+			c.Check(okIdx == 2, R, "rag.(*BatchExporter).Export#indices", fn.Pos(), "StartIndex/EndIndex are the window bounds", "the reported StartIndex/EndIndex are not the bounds of the exported window")
+			ruleBatchExporters(c, R)
+			return
+		}
+	}
+	c.Check(iPhi != nil, R, "rag.(*BatchExporter).Export#step", fn.Pos(), "loop advances by the batch size", "the batch loop does not advance by exactly batchSize: chunks at batch boundaries are dropped or repeated")
+	if iPhi == nil {
+		return
+	}
 	if win == nil {
 		c.Viol(R, "rag.(*BatchExporter).Export#window", fn.Pos(), "no window chunks[i:end] found")
 		return
@@ -421,6 +479,10 @@ func ruleBatchPartition(c *eng.Ctx) {
 		}
 	})
 	c.Check(okIdx == 2, R, "rag.(*BatchExporter).Export#indices", fn.Pos(), "StartIndex/EndIndex are the window bounds", "the reported StartIndex/EndIndex are not the bounds of the exported window")
+	ruleBatchExporters(c, R)
+}
+
+func ruleBatchExporters(c *eng.Ctx, R string) {
 	// exporters: prepareChunkForExport(chunk, i) with the range index, once per element
 	for _, name := range []string{"rag.(*Exporter).exportJSONL", "rag.(*Exporter).exportJSON", "rag.(*Exporter).exportCSV"} {
 		f := c.P.Func(name)
